@@ -26,6 +26,15 @@ Open Scope Z_scope.
 Definition legal (raw : option config) (ops : list (op * list nat)) : Prop :=
   Forall (fun ev => ev_ret ev <> RBadOp) (run raw init_bal ops).
 
+Definition legal_b (raw : option config) (ops : list (op * list nat)) : bool :=
+  forallb (fun ev => match ev_ret ev with RBadOp => false | _ => true end) (run raw init_bal ops).
+
+Lemma legal_b_sound raw ops : legal_b raw ops = true -> legal raw ops.
+Proof.
+  unfold legal_b, legal. rewrite forallb_forall, Forall_forall. intros H ev Hin E.
+  specialize (H ev Hin). rewrite E in H. discriminate.
+Qed.
+
 (* all that C03 needs of it: no Pick is issued on a picker whose mutex a parked Pick holds *)
 Definition pick_legal (ev : event) : Prop :=
   match ev_op ev with OpPick _ _ _ _ _ _ => ev_ret ev <> RBadOp | _ => True end.
@@ -301,3 +310,15 @@ Theorem remove_only_swapped raw s o order s1 outs rt :
   exists sc i ref, o = OpConnState sc Ready /\ aget (b_refr s) sc = Some i /\ get_slot s i = Some ref /\
                    removes outs = [sl_conn ref].
 Proof. apply step_removes. Qed.
+
+(* ================================================================ the revival witness *)
+(* corpus/pool/known_res.hist: min 1, max 2, watermark 1, unresponsive detection
+   after 1 ms / 1 call.  Connection 0 is refreshed (replacement 1) and shut down,
+   the pool regrows to maxSize (connections 2, 3), then the replacement becomes
+   READY and its channel is swapped back into the pool: 3 connections. *)
+Definition res_raw : option config := Some (mkConfig 1 2 1 false 1 1 false []).
+Definition res_ops : list (op * list nat) :=
+  [(OpResolver 1 CfgVal, []); (OpConnState 0 Ready, []); (OpPick 0 0 true [] (Some 1000000) false, []);
+   (OpAdvance 2000001, []); (OpDone 0 DDeadlineClient [], []); (OpConnState 0 Shutdown, []);
+   (OpResolver 1 CfgVal, []); (OpConnState 2 Ready, []); (OpPick 2 0 true [] None false, []);
+   (OpPick 2 0 true [] None false, []); (OpConnState 3 Ready, []); (OpConnState 1 Ready, [])].
